@@ -133,6 +133,12 @@ def delete_tasks(spec, U):
         elif ty == "TaskPrecedence":
             if c["before"] in U or c["after"] in U:
                 continue
+        elif ty == "GroupPrecedence":
+            if c.get("before") in U or c.get("after") in U:
+                continue
+            for k in ("gbefore", "gafter"):
+                if c.get(k) and all(x in U for x in ref.find_constraint(spec, c[k])["tasks"]):
+                    return None  # a precedence over a group without any member left: keep out
         elif ty in ("TasksStartSynced", "TasksEndSynced", "TasksDontOverlap"):
             if c["t1"] in U or c["t2"] in U:
                 continue
